@@ -335,6 +335,28 @@ type c09Gen struct {
 	manifests map[string]*c09Manifest
 	mlist     []*c09Manifest
 	out       *zzverif.Out
+	force     string // "", "beyond" (plan with a range past / across the layer end), "honest"
+}
+
+// beyondPlan is the honest partition plus a range that ends past the end of the layer: either an
+// extra entry starting at the end, or the last entry stretched across the end.  The registry
+// serves bytes matching the chunk digests, so every chunk verifies and the in-place blob grows
+// beyond the manifest's size.
+func (g *c09Gen) beyondPlan(c []byte, size int64) *c09Plan {
+	r := g.rng
+	p := &c09Plan{class: "notpartition", entries: g.partition(c, size)}
+	k := int64(r.Range(1, 3))
+	if r.Bool() || len(p.entries) == 0 {
+		p.entries = append(p.entries, c09CS{pre: r.Bytes(int(k)), start: size, end: size + k - 1})
+		g.out.Count("plan_beyond_end")
+	} else {
+		last := &p.entries[len(p.entries)-1]
+		last.pre = append(append([]byte{}, last.pre...), r.Bytes(int(k))...)
+		last.end += k
+		g.out.Count("plan_overlap_end")
+	}
+	g.out.Count("plan_" + p.class)
+	return p
 }
 
 func (g *c09Gen) content() []byte {
@@ -450,6 +472,17 @@ func (g *c09Gen) partition(c []byte, size int64) []c09CS {
 func (g *c09Gen) genPlan(c []byte, size int64) *c09Plan {
 	r := g.rng
 	p := &c09Plan{class: "partition"}
+	switch g.force {
+	case "beyond":
+		return g.beyondPlan(c, size)
+	case "honest":
+		p.entries = g.partition(c, size)
+		g.out.Count("plan_partition")
+		return p
+	}
+	if r.Chance(1, 12) {
+		return g.beyondPlan(c, size)
+	}
 	switch r.Intn(20) {
 	case 0:
 		p.fail = zzverif.Pick(r, []string{"status500", "status404", "status204", "transport"})
@@ -642,6 +675,26 @@ func c09PullCase(t *testing.T, out *zzverif.Out, rng *zzverif.Rng, dir string, t
 		return flags[d]
 	}
 	nattempts := rng.Range(1, 4)
+	// history mode "beyond then honest": attempt 0 is served, for every chunked layer, a plan with
+	// a range past the layer end (all chunks answered correctly: the blob becomes oversized and the
+	// attempt fails on the counter); the following attempts get the honest plan and no faults.
+	beyondThenHonest := rng.Chance(1, 6)
+	if beyondThenHonest {
+		nattempts = 3
+		big := rng.Bytes(int(g.thr) + rng.Intn(4))
+		g.pool = append(g.pool, big)
+		trueLen[c09Dig(big)] = int64(len(big))
+		layers := []c09Layer{{pre: big, size: int64(len(big))}}
+		if rng.Bool() {
+			o := g.content()
+			if !bytes.Equal(o, big) {
+				layers = append(layers, c09Layer{pre: o, size: int64(len(o))})
+			}
+		}
+		current["m0"] = g.manifestOf(layers, nil, 0)
+		out.Count("hist_beyond_then_honest")
+	}
+	victim := map[blob.Digest]bool{}
 	var ops, impls []string
 	caseHdr := tag
 	var l2s [][2]string
@@ -649,19 +702,26 @@ func c09PullCase(t *testing.T, out *zzverif.Out, rng *zzverif.Rng, dir string, t
 
 	for at := 0; at < nattempts; at++ {
 		model := names[0]
-		if rng.Chance(1, 5) {
+		if rng.Chance(1, 5) && !beyondThenHonest {
 			model = names[1]
+		}
+		g.force = ""
+		if beyondThenHonest {
+			g.force = "honest"
+			if at == 0 {
+				g.force = "beyond"
+			}
 		}
 		nameIdx := 0
 		if model == "m1" {
 			nameIdx = 1
 		}
-		if current[model] == nil || rng.Chance(1, 4) {
+		if current[model] == nil || (rng.Chance(1, 4) && !beyondThenHonest) {
 			current[model] = g.genManifest()
 		}
 		m := current[model]
 		manKind := "ok"
-		if rng.Chance(1, 12) {
+		if rng.Chance(1, 12) && !beyondThenHonest {
 			manKind = zzverif.Pick(rng, []string{"status500", "status404", "unknown", "transport", "badjson"})
 		}
 		out.Count("manifest_" + manKind)
@@ -731,6 +791,26 @@ func c09PullCase(t *testing.T, out *zzverif.Out, rng *zzverif.Rng, dir string, t
 			ChunkingThreshold: g.thr}
 		linkBefore := c09ReadLink(dir, model)
 		faultRate := zzverif.Pick(rng, []int{0, 1, 1, 3, 6}) // out of 10
+		if beyondThenHonest {
+			faultRate = 0
+		}
+		// which linked blobs are good before this attempt (to recognise in-place damage, F10d)
+		goodBefore := map[blob.Digest]bool{}
+		for _, nm := range names {
+			var lm Manifest
+			if data := c09ReadLink(dir, nm); data != nil && json.Unmarshal(data, &lm) == nil {
+				ls := append([]*Layer{}, lm.Layers...)
+				if lm.Config != nil && lm.Config.Digest.IsValid() {
+					ls = append(ls, lm.Config)
+				}
+				for _, l := range ls {
+					b, err := os.ReadFile(c.GetFile(l.Digest))
+					if err == nil && int64(len(b)) == l.Size && blob.Digest(c09Dig(b)) == l.Digest {
+						goodBefore[l.Digest] = true
+					}
+				}
+			}
+		}
 
 		var steps []string
 		var counts []string
@@ -752,7 +832,7 @@ func c09PullCase(t *testing.T, out *zzverif.Out, rng *zzverif.Rng, dir string, t
 					t.Fatalf("c09: client neither finished nor waiting (case %s)", tag)
 				}
 				counts = append(counts, strconv.Itoa(len(w)))
-				if rng.Chance(1, 30) {
+				if rng.Chance(1, 30) && !beyondThenHonest {
 					steps = append(steps, "cancel")
 					out.Count("step_cancel")
 					cancel()
@@ -832,6 +912,16 @@ func c09PullCase(t *testing.T, out *zzverif.Out, rng *zzverif.Rng, dir string, t
 				}
 			}
 		}
+		if manKind == "ok" {
+			for _, l := range all {
+				if fi, err := os.Stat(c.GetFile(l.dig())); err == nil && fi.Size() > l.size {
+					out.Count("attempt_left_oversized_blob")
+					if beyondThenHonest && at == 0 {
+						out.Count("hist_oversized_blob_before_honest_retry")
+					}
+				}
+			}
+		}
 		// ---- L2: the property on the real cache, independent of the model
 		if result != nil && !bytes.Equal(linkBefore, linkAfter) {
 			l2s = append(l2s, [2]string{"failed-pull-changed-link", fmt.Sprintf("attempt=%d result=%s", at, cls)})
@@ -852,16 +942,37 @@ func c09PullCase(t *testing.T, out *zzverif.Out, rng *zzverif.Rng, dir string, t
 			}
 			for _, l := range ls {
 				b, err := os.ReadFile(c.GetFile(l.Digest))
+				// EXACTLY the manifest's size, and the SHA-256 of the WHOLE file is the digest
 				good := err == nil && int64(len(b)) == l.Size && blob.Digest(c09Dig(b)) == l.Digest
 				if good {
+					delete(victim, l.Digest)
 					continue
 				}
 				f := flag(l.Digest)
 				via := "unknown"
+				declaredOther := false
+				if manKind == "ok" {
+					for _, o := range all {
+						if o.dig() == l.Digest && o.size != l.Size {
+							declaredOther = true
+						}
+					}
+				}
+				linkedNow := result == nil && nm == model && bytes.Equal(data, m.data)
 				switch {
+				case linkedNow && verify:
+					// this very pull reported success and linked this manifest: on a tree that
+					// verifies before Link nothing excuses a bad layer
+					via = "linked-by-this-successful-pull"
+				case !linkedNow && (victim[l.Digest] || (goodBefore[l.Digest] && declaredOther)):
+					// the blob was good and linked; a pull whose manifest declares the same digest
+					// with ANOTHER size wrote into (or removed) the final file (F10d); it stays
+					// damaged until some pull fetches it again
+					victim[l.Digest] = true
+					via = "size-lie-overwrote-linked-blob"
+				case verify:
+					via = "unknown"
 				case f.sizeLie && trueLen[l.Digest] == l.Size:
-					// the linked manifest is honest about this layer: a pull of ANOTHER manifest
-					// declaring the same digest with a different size wrote into the final file
 					via = "size-lie-overwrote-linked-blob"
 				case f.sizeLie:
 					via = "chunked-size-lie"
